@@ -171,6 +171,8 @@ STYLES = {
 
 
 def main(ctx):
+    # every lattice part once more under FP traps + warnings-as-errors (clean on the unchanged tree, see DESIGN section 0)
+    ctx.envstrict_all = True
     import esutil
     from esutil import sfile
 
